@@ -90,6 +90,18 @@ def binop(op, a, b, w):
             raise Unsupported('difference of pointers into different objects')
         if op in ('add', 'sub') and isinstance(a, Ptr) and not isinstance(b, (Ptr, FV, Half, float)): return Ptr(a.obj, binop(op, a.off, b, w))
         if op == 'add' and isinstance(b, Ptr) and not isinstance(a, (Ptr, FV, Half, float)): return Ptr(b.obj, binop('add', b.off, a, w))
+        if op in ('and', 'urem'):
+            # alignment test of an address (p & 31, p % 32): the object's base address is an arbitrary multiple of its alignment, so the low bits
+            # are (K·align + offset) & mask with K an unconstrained word per object; the run then forks on the outcome of the comparison
+            p_, m_ = (a, b) if isinstance(a, Ptr) else (b, a)
+            if is_c(m_) and p_.obj is not None:
+                mk_ = m_ if op == 'and' else m_ - 1
+                if op == 'urem' and (m_ == 0 or m_ & (m_ - 1)): raise Unsupported('address modulo a non-power of two')
+                if mk_ >= 0 and (mk_ & (mk_ + 1)) == 0 and mk_ < 4096:
+                    al = max(1, int(getattr(p_.obj, 'align', 8) or 8))
+                    if not hasattr(p_.obj, 'base_sym'): p_.obj.base_sym = z3.BitVec('addrk_%s_%d' % (str(p_.obj.name)[:20], p_.obj.id), 64)
+                    base = p_.obj.base_sym * bvv(al, 64)
+                    return z3.simplify((base + tobv(p_.off, 64)) & bvv(mk_, 64))
         raise Unsupported('integer operation %s on a pointer' % op)
     if isinstance(a, float) or isinstance(b, float):
         return {'fadd': lambda: a + b, 'fsub': lambda: a - b, 'fmul': lambda: a * b, 'fdiv': lambda: a / b}[op]()
